@@ -310,6 +310,13 @@ func runFaultDeferred(pl ftPlan, planIdx int, limit int64, cont, path string, o 
 		o.Call, o.ErrRet = "finalize", true
 	}
 	lift()
+	if ferr != nil {
+		// a Close that failed has closed the writer all the same
+		if perr := put("b9"); perr == nil {
+			o.Reopened = true
+			o.Msg += " Put after the failed Close returned nil;"
+		}
+	}
 	o.Faults = 1
 	for id := range acked {
 		o.Acked = append(o.Acked, id)
